@@ -761,3 +761,78 @@ func TestVerifStorm(t *testing.T) {
 	b, _ := json.Marshal(map[string]interface{}{"stuck": stuck, "rounds": rounds, "collide_rounds": pairs, "collide_lost": lost})
 	ioutil.WriteFile(out, b, 0644)
 }
+
+// cManyTplMsg: one message announcing the templates ids[...] with version stamp ver (two padding fields of a, b octets)
+func cManyTplMsg(ids []int, ver int) []byte {
+	a, b := ver/50, ver%50
+	var rec []byte
+	for _, id := range ids {
+		rec = append(rec, append(append(cU16(id), cU16(2)...), append(append(cU16(210), cU16(a)...), append(cU16(210), cU16(b)...)...)...)...)
+	}
+	one := cTplMsg(256, ver)    // header and set header in this protocol's shape
+	hdrLen := len(one) - 4 - 24 // (cTplMsg carries two 12-octet template records behind a 4-octet set header)
+	msg := append([]byte{}, one[:hdrLen]...)
+	set := append(append([]byte{}, one[hdrLen:hdrLen+2]...), cU16(4+len(rec))...)
+	msg = append(append(msg, set...), rec...)
+	if msg[1] == 10 {
+		msg[2], msg[3] = byte(len(msg)>>8), byte(len(msg))
+	}
+	return msg
+}
+
+// TestVerifManyTemplates: a collector that has been running for a long time - three exporters that have each used their whole
+// template id range (195 840 templates), a few of them re-announced with another layout afterwards.  Every announced pair
+// is then asked for by a data set: it is decoded with the exporter's latest announcement.
+func TestVerifManyTemplates(t *testing.T) {
+	out := os.Getenv("VERIF_OUT")
+	if out == "" || os.Getenv("VERIF_MANY") == "" {
+		t.Skip("driver: VERIF_MANY not set")
+	}
+	cache := GetCache("")
+	exps := []net.IP{{10, 1, 1, 1}, net.ParseIP("10.1.1.2"), net.ParseIP("2001:db8::77")}
+	want := map[[2]int]int{}
+	for ei, e := range exps {
+		for lo := 256; lo < 65536; lo += 100 {
+			var ids []int
+			for id := lo; id < lo+100 && id < 65536; id++ {
+				ids = append(ids, id)
+				want[[2]int{ei, id}] = 60
+			}
+			if _, err := NewDecoder(e, cManyTplMsg(ids, 60)).Decode(cache); err != nil {
+				t.Fatalf("template datagram rejected: %v", err)
+			}
+		}
+	}
+	// re-announcements with another layout, spread over the id range and the exporters
+	for k := 0; k < 300; k++ {
+		ei, id := k%3, 256+(k*211)%65280
+		if _, err := NewDecoder(exps[ei], cManyTplMsg([]int{id}, 61)).Decode(cache); err != nil {
+			t.Fatalf("template datagram rejected: %v", err)
+		}
+		want[[2]int{ei, id}] = 61
+	}
+	unknown, stale, other := 0, 0, 0
+	var first string
+	for ei, e := range exps {
+		for id := 256; id < 65536; id++ {
+			msg, err := NewDecoder(e, cDataMsg(id)).Decode(cache)
+			v := cObserved(msg, err)
+			if v == want[[2]int{ei, id}] {
+				continue
+			}
+			switch {
+			case v == 0:
+				unknown++
+			case v == 60 || v == 61:
+				stale++
+			default:
+				other++
+			}
+			if first == "" {
+				first = fmt.Sprintf("exporter %s id %d: announced last with version %d, decoded as %d", e, id, want[[2]int{ei, id}], v)
+			}
+		}
+	}
+	b, _ := json.Marshal(map[string]interface{}{"pairs": len(want), "unknown": unknown, "stale": stale, "other": other, "first": first})
+	ioutil.WriteFile(out, b, 0644)
+}
